@@ -106,6 +106,7 @@ type lkCase struct {
 	sub      uint64
 	d10      bool
 	fault    *lkFault // lookups_fault.go: write faults, busy Get consumer, reply order
+	race     *lkRace  // lookups_stop.go: the stop lands inside the processing of a reply / while the consumer pauses
 }
 
 func (c *lkCase) name() string { return fmt.Sprintf("%s/%s", c.api, c.desc) }
@@ -438,6 +439,9 @@ func runLookupCase(c *lkCase, base0 int) (leak int) {
 }
 
 func runLookupOnce(c *lkCase, rep int, report bool) (*lkState, lkResult) {
+	if c.race != nil {
+		return runLookupRaceOnce(c, rep, report) // lookups_stop.go
+	}
 	r := (&rng{s: c.sub}).sub(0)
 	st := &lkState{c: c, rep: rep, conn: newFakeConn(), queue: make(chan *lkQuery, 8192), gateMu: make(chan struct{}, 1),
 		byAddr: map[string]*lkNode{}, served: map[string]int{}, consDone: make(chan struct{})}
@@ -1520,6 +1524,7 @@ func lookupsEngine(seed uint64, tier string, args []string) {
 		}
 	}
 	cases := lookupCases(seed, tier)
+	cases = append(cases, lookupStopCases(seed, tier, len(cases))...) // lookups_stop.go
 	if only >= 0 && only < len(cases) {
 		cases = cases[:only+1]
 		if from < only {
@@ -1636,6 +1641,7 @@ func lkContained(seed uint64, tier string, cases []lkCase, from, only int) {
 			}
 		}
 		emit("oracle C01 process-died:%s case=%d scenario=%s %q last-line=%q", site, crashed, name, first, last)
+		lkDeathOracleC14(cases, crashed, site, first, seed) // lookups_stop.go
 		if strings.Contains(first, "send on closed channel") {
 			emit("oracle C16 send-on-closed-peers-channel case=%d scenario=%s site=%s %q replay: h -seed %d lookups -only %d", crashed, name, site, first, seed, crashed)
 		}
